@@ -163,6 +163,7 @@ func (e *env) handleSequence(seed uint64) {
 		e.r.InfraError = "connect: " + err.Error()
 		return
 	}
+	xsubs.LoopStarted(c.VerifChanLens)
 	defer func() {
 		cctx, cc := context.WithTimeout(context.Background(), 500*time.Millisecond)
 		c.Close(cctx)
@@ -422,6 +423,7 @@ func (e *env) converge(seed uint64, chanMode bool) {
 		e.r.InfraError = "connect: " + err.Error()
 		return
 	}
+	xsubs.LoopStarted(c.VerifChanLens)
 	defer func() {
 		cctx, cc := context.WithTimeout(context.Background(), time.Second)
 		c.Close(cctx)
@@ -501,9 +503,6 @@ func (e *env) converge(seed uint64, chanMode bool) {
 	time.Sleep(300 * time.Millisecond)
 	xsubs.WaitFor(5*time.Second, func() bool { dmu.Lock(); defer dmu.Unlock(); return time.Since(lastMsg) > 200*time.Millisecond })
 
-	dmu.Lock()
-	msgs := append([]delivered(nil), got...)
-	dmu.Unlock()
 	e.r.Count(name, true)
 	e.r.TracesValidated++
 	if chanMode {
@@ -511,21 +510,51 @@ func (e *env) converge(seed uint64, chanMode bool) {
 	} else {
 		e.r.Hit("converge:callback-subscribe")
 	}
-	// ---- own oracle 1: every message names the node whose value it carries
+	current := map[int]int32{}
+	for k := 0; k < nnodes; k++ {
+		dv, err := c.Node(srv.NodeID(k)).Value(ctx)
+		if err != nil || dv == nil {
+			e.r.InfraError = fmt.Sprintf("%s: read v%d: %v", name, k, err)
+			return
+		}
+		current[k], _ = dv.Value().(int32)
+	}
+	var msgs []delivered
 	last := map[int]int32{}
 	seen := map[int]bool{}
 	nerr := 0
-	for _, d := range msgs {
-		if d.err {
-			nerr++
-			continue
+	// a loaded machine may deliver the last publish late: the comparison is repeated
+	// (up to 2 s more, i.e. 100 publishing intervals) before a mismatch counts
+	for try := 0; try < 5; try++ {
+		dmu.Lock()
+		msgs = append([]delivered(nil), got...)
+		dmu.Unlock()
+		last, seen, nerr = map[int]int32{}, map[int]bool{}, 0
+		for _, d := range msgs {
+			if d.err {
+				nerr++
+				continue
+			}
+			last[d.node] = d.val
+			seen[d.node] = true
 		}
-		if int(d.val)/100000 != d.node {
+		same := true
+		for k := 0; k < nnodes; k++ {
+			if !seen[k] || last[k] != current[k] {
+				same = false
+			}
+		}
+		if same {
+			break
+		}
+		time.Sleep(500 * time.Millisecond)
+	}
+	// ---- own oracle 1: every message names the node whose value it carries
+	for _, d := range msgs {
+		if !d.err && int(d.val)/100000 != d.node {
 			e.r.Fail(name, "", fmt.Sprintf("a message with NodeID v%d carries value %d, a value written to v%d", d.node, d.val, int(d.val)/100000))
 			return
 		}
-		last[d.node] = d.val
-		seen[d.node] = true
 	}
 	e.r.Hit(fmt.Sprintf("converge:messages>=%d", len(msgs)/50*50))
 	if nerr > 0 {
@@ -533,18 +562,12 @@ func (e *env) converge(seed uint64, chanMode bool) {
 	}
 	// ---- own oracle 2: after quiescence the last delivered value is the current value
 	for k := 0; k < nnodes; k++ {
-		dv, err := c.Node(srv.NodeID(k)).Value(ctx)
-		if err != nil || dv == nil {
-			e.r.InfraError = fmt.Sprintf("%s: read v%d: %v", name, k, err)
-			return
-		}
-		cur, _ := dv.Value().(int32)
 		if !seen[k] {
 			e.r.Fail(name, "", fmt.Sprintf("monitored node v%d never delivered a value", k))
 			continue
 		}
-		if last[k] != cur {
-			e.r.Fail(name, "", fmt.Sprintf("after the writers stopped and %d ms without a message the last value delivered for v%d is %d but Read returns %d", 200, k, last[k], cur))
+		if last[k] != current[k] {
+			e.r.Fail(name, "", fmt.Sprintf("the writers stopped, no message arrived for more than 2 s, and the last value delivered for v%d is %d but Read returns %d", k, last[k], current[k]))
 		} else {
 			e.r.Hit("converge:last-equals-read")
 		}
